@@ -102,7 +102,7 @@ def build_module(case):
 def doctest_lines(fn):
     """docstring lines (relative indentation) and the expected dump body lines"""
     if fn.get('special') == 'disabled':
-        return ['>>> # DISABLE_DOCTEST', '>>> print(1)', '2'], None
+        return ['>>> ' + fn.get('marker', '# DISABLE_DOCTEST'), '>>> print(1)', '2'], None
     if fn.get('special') == 'comment_only':
         return ['>>> # only a comment'], ['# only a comment']
     p = fn['prog']
@@ -214,8 +214,8 @@ def compare_body(body, expected):
                 i += 1        # an empty line (left behind by a removed star-import, or between parts) is not a statement
             if i < len(body) and body[i].rstrip() == line.rstrip():
                 i += 1
-            elif is_term or line.strip() == '':
-                continue      # an empty line from a bare '...' terminator (or a blank string line at a part end) may be absent
+            elif is_term:
+                continue      # the empty line that stems from a bare '...' terminator may be absent
             else:
                 return 'line {}: expected source line {!r}, found {!r}'.format(i, line, body[i] if i < len(body) else '<end>')
         else:
@@ -328,6 +328,8 @@ def case_strategy(D, max_funcs, max_groups):
     for i in range(D.int(1, max_funcs)):
         special = D.weighted([(None, 8), ('disabled', 1), ('comment_only', 1)])
         fn = {'layout': D.choice(['google', 'bare']), 'in_class': D.chance(1, 5), 'special': special, 'second_block': D.chance(1, 4)}
+        if special == 'disabled':
+            fn['marker'] = D.choice(['# DISABLE_DOCTEST', '# SCRIPT', '# UNSTABLE', '# FAILING', '# SLOW_DOCTEST'])
         if special is None:
             p = programs.gen_program(D, max_groups=max_groups)
             fn['prog'] = {k: p[k] for k in ('doc', 'labels', 'exec_lines', 'example_indent')}
